@@ -439,3 +439,254 @@ Proof.
   destruct ok; [|reflexivity]. destruct (send_all (d_other s) sends) as [L|] eqn:E; [|reflexivity].
   eapply send_all_total; eassumption.
 Qed.
+
+(* ================================================================== histories with aborted executions (TxPipeDenom.xitem)
+   The histories the blocks driver checks contain, beside the items above, Ethereum transactions whose execution is aborted
+   by a panic (Model/TxPipeExt.v deliver_panic).  Everything proved about histories - supply per denomination, sequences,
+   no replay, numbering - is proved again for them; a history without such a transaction is a special case
+   (xfinal_embeds / xtrace_embeds). *)
+Fixpoint xfinal (s : dst) (l : list xitem) : dst :=
+  match l with [] => s | i :: r => xfinal (fst (xstep s i)) r end.
+
+Lemma xrun_final s l : fst (xrun s l) = xfinal s l.
+Proof.
+  revert s; induction l as [|i r IH]; intros s; cbn [xrun xfinal]; [reflexivity|].
+  destruct (xstep s i) as [s1 r1] eqn:E1. destruct (xrun s1 r) as [s2 r2] eqn:E2.
+  cbn. rewrite <- IH, E2. reflexivity.
+Qed.
+
+Lemma xfinal_embeds l : forall s, xfinal s (map XItem l) = dfinal s l.
+Proof. induction l as [|i r IH]; intros s; cbn [xfinal dfinal map xstep]; [reflexivity|apply IH]. Qed.
+
+Lemma xstep_panic_unfold s t gu :
+  xstep s (XPanic t gu) =
+  (mkDst (fst (deliver_panic (d_core s) t gu)) (d_other s), [snd (deliver_panic (d_core s) t gu)]).
+Proof. cbn [xstep]. destruct (deliver_panic (d_core s) t gu). reflexivity. Qed.
+
+(* an aborted execution leaves every other denomination alone: balances and supplies *)
+Lemma panic_other_untouched s t gu : d_other (fst (xstep s (XPanic t gu))) = d_other s.
+Proof. rewrite xstep_panic_unfold. reflexivity. Qed.
+
+Lemma panic_core s t gu : d_core (fst (xstep s (XPanic t gu))) = fst (deliver_panic (d_core s) t gu).
+Proof. rewrite xstep_panic_unfold. reflexivity. Qed.
+
+(* ... and no supply moves, in any denomination *)
+Lemma panic_denom_supply s t gu d : supply_d (fst (xstep s (XPanic t gu))) d = supply_d s d.
+Proof.
+  unfold supply_d. rewrite panic_other_untouched, panic_core, panic_supply. reflexivity.
+Qed.
+
+Lemma panic_denom_balance s t gu d a : d <> EVM_DENOM ->
+  bal_d (fst (xstep s (XPanic t gu))) d a = bal_d s d a.
+Proof.
+  intros Hd. unfold bal_d. destruct (d =? EVM_DENOM) eqn:E; [unfold EVM_DENOM in *; lia|].
+  rewrite panic_other_untouched. reflexivity.
+Qed.
+
+Definition xitem_destroyed (s : dst) (i : xitem) (d : denom) : Z :=
+  match i with XItem i => item_destroyed s i d | XPanic _ _ => 0 end.
+
+Fixpoint xdestroyed_hist (s : dst) (l : list xitem) (d : denom) : Z :=
+  match l with [] => 0 | i :: r => xitem_destroyed s i d + xdestroyed_hist (fst (xstep s i)) r d end.
+
+Lemma xstep_supply s i d : supply_d (fst (xstep s i)) d = supply_d s d - xitem_destroyed s i d.
+Proof.
+  destruct i as [i|t gu]; cbn [xitem_destroyed].
+  - cbn [xstep]. apply dstep_supply.
+  - rewrite panic_denom_supply. lia.
+Qed.
+
+(* C04 over all histories incl. aborted executions, every denomination *)
+Theorem xsupply_history l : forall s d,
+  supply_d (xfinal s l) d = supply_d s d - xdestroyed_hist s l d.
+Proof.
+  induction l as [|i r IH]; intros s d; cbn [xfinal xdestroyed_hist]; [lia|].
+  rewrite IH, xstep_supply. lia.
+Qed.
+
+Lemma xstep_nonneg s i : nonneg (d_other s) -> nonneg (d_other (fst (xstep s i))).
+Proof.
+  intros H. destruct i as [i|t gu]; [cbn [xstep]; apply dstep_nonneg; exact H|].
+  rewrite panic_other_untouched. exact H.
+Qed.
+
+Definition xburns_nonneg (l : list xitem) : Prop := forall t o x, In (XItem (DEth t o x)) l -> 0 <= e_burn o.
+
+Theorem xsupply_never_grows l : forall s d,
+  nonneg (d_other s) -> xburns_nonneg l -> supply_d (xfinal s l) d <= supply_d s d.
+Proof.
+  induction l as [|i r IH]; intros s d Hn Hb; cbn [xfinal]; [lia|].
+  assert (H1 : supply_d (xfinal (fst (xstep s i)) r) d <= supply_d (fst (xstep s i)) d).
+  { apply IH; [apply xstep_nonneg; exact Hn|]. intros t o x Hin. apply (Hb t o x). right. exact Hin. }
+  rewrite xstep_supply in H1.
+  assert (0 <= xitem_destroyed s i d).
+  { destruct i as [i|t gu]; cbn [xitem_destroyed]; [|lia].
+    apply item_destroyed_nonneg; [exact Hn|]. intros t o x ->. apply (Hb t o x). left. reflexivity. }
+  lia.
+Qed.
+
+(* ------------------------------------------------------------------ the Ethereum transactions of a history *)
+(* what an item contributes to the trace: the core state before it, the descriptor, the interpreter's part, the result *)
+Definition xhead (s : dst) (i : xitem) : option (st * txd * evm_out * txres) :=
+  match i with
+  | XItem (DEth t o _) => Some (d_core s, t, o, snd (deliver (d_core s) t o))
+  | XItem (DCosmos _ _ _ _ _ _) => None
+  | XPanic t gu => Some (d_core s, t, no_exec, snd (deliver_panic (d_core s) t gu))
+  end.
+
+Fixpoint xtrace (s : dst) (l : list xitem) : list (st * txd * evm_out * txres) :=
+  match l with
+  | [] => []
+  | i :: r => match xhead s i with Some x => x :: xtrace (fst (xstep s i)) r | None => xtrace (fst (xstep s i)) r end
+  end.
+
+Lemma xtrace_embeds l : forall s, xtrace s (map XItem l) = trace (d_core s) (map core_item l).
+Proof.
+  induction l as [|i r IH]; intros s; cbn [xtrace map trace]; [reflexivity|].
+  pose proof (dstep_core s i) as Hc.
+  destruct i as [t o x|g p f inc ok sends]; cbn [xhead core_item trace xstep] in *.
+  - rewrite IH, Hc. cbn [step]. destruct (deliver (d_core s) t o). reflexivity.
+  - rewrite IH, Hc. reflexivity.
+Qed.
+
+(* one item, uniformly: an Ethereum transaction obeys step_facts, anything else leaves the transient counters alone and
+   does not lower a sequence *)
+Lemma xstep_facts s i :
+  match xhead s i with
+  | Some (sx, t, o, r) => sx = d_core s /\ step_facts sx t o (d_core (fst (xstep s i))) r
+  | None => (forall a, sqn (d_core s) a <= sqn (d_core (fst (xstep s i))) a) /\
+            tx_count (d_core (fst (xstep s i))) = tx_count (d_core s) /\
+            cum_gas (d_core (fst (xstep s i))) = cum_gas (d_core s) /\
+            log_count (d_core (fst (xstep s i))) = log_count (d_core s)
+  end.
+Proof.
+  destruct i as [[t o x|g p f inc ok sends]|t gu]; cbn [xhead].
+  - split; [reflexivity|]. cbn [xstep dstep].
+    pose proof (ddeliver_core s t o x) as Hc. destruct (ddeliver s t o x) as [s' r]. cbn [fst] in *. rewrite Hc.
+    apply deliver_facts.
+  - pose proof (dstep_core s (DCosmos g p f inc ok sends)) as Hc. cbn [xstep]. rewrite Hc. cbn [core_item].
+    pose proof (step_cosmos_transient (d_core s) g p f inc) as Ht. cbv zeta in Ht. destruct Ht as (H1 & H2 & H3).
+    split; [intros a; apply sqn_step_item|]. auto.
+  - split; [reflexivity|]. rewrite panic_core. apply panic_facts.
+Qed.
+
+Lemma xstep_sqn_le s i a : sqn (d_core s) a <= sqn (d_core (fst (xstep s i))) a.
+Proof.
+  pose proof (xstep_facts s i) as H. destruct (xhead s i) as [[[[sx t] o] r]|].
+  - destruct H as [-> F]. rewrite (sf_sqn _ _ _ _ _ F). destruct (passed (r_out r) && (a =? t_from t)); lia.
+  - destruct H as [H _]. apply H.
+Qed.
+
+(* C06: sequences never move backwards, over any history *)
+Theorem xsqn_monotone l : forall s a, sqn (d_core s) a <= sqn (d_core (xfinal s l)) a.
+Proof.
+  induction l as [|i r IH]; intros s a; cbn [xfinal]; [lia|].
+  pose proof (xstep_sqn_le s i a). pose proof (IH (fst (xstep s i)) a). lia.
+Qed.
+
+Lemma xtrace_states_ge l : forall s x a, In x (xtrace s l) ->
+  let '(sx, _, _, _) := x in sqn (d_core s) a <= sqn sx a.
+Proof.
+  induction l as [|i r IH]; intros s x a Hin; [inversion Hin|].
+  cbn [xtrace] in Hin. pose proof (xstep_sqn_le s i a) as Hle.
+  pose proof (xstep_facts s i) as Hf.
+  destruct (xhead s i) as [[[[sh th] oh] rh]|].
+  - destruct Hf as [-> _]. destruct Hin as [<-|Hin]; [lia|].
+    specialize (IH _ x a Hin). destruct x as [[[sx tx] ox] rx]. lia.
+  - specialize (IH _ x a Hin). destruct x as [[[sx tx] ox] rx]. lia.
+Qed.
+
+(* every transaction of a trace that passed admission was authorised in the state it met *)
+Lemma xtrace_admitted l : forall s x, In x (xtrace s l) ->
+  let '(sx, tx, _, rx) := x in passed (r_out rx) = true -> admitted sx tx.
+Proof.
+  induction l as [|i r IH]; intros s x Hin; [inversion Hin|].
+  cbn [xtrace] in Hin. pose proof (xstep_facts s i) as Hf.
+  destruct (xhead s i) as [[[[sh th] oh] rh]|].
+  - destruct Hin as [<-|Hin]; [|apply (IH _ x Hin)].
+    destruct Hf as [_ F]. intros Hp. apply (sf_adm _ _ _ _ _ F Hp).
+  - apply (IH _ x Hin).
+Qed.
+
+(* C06 NO REPLAY over histories with aborted executions: two Ethereum transactions with the same sender and nonce cannot
+   both pass admission - also when the first one was aborted by a panic (its sequence increment stays) *)
+Theorem x_no_replay l : forall s pre x mid y post,
+  xtrace s l = pre ++ x :: mid ++ y :: post ->
+  let '(_, tx, _, rx) := x in let '(_, ty, _, ry) := y in
+  t_from tx = t_from ty -> t_nonce tx = t_nonce ty ->
+  passed (r_out rx) = true -> passed (r_out ry) = false.
+Proof.
+  induction l as [|i r IH]; intros s pre x mid y post Htr.
+  - destruct pre; discriminate.
+  - cbn [xtrace] in Htr. pose proof (xstep_facts s i) as Hf.
+    destruct (xhead s i) as [[[[sh th] oh] rh]|].
+    + destruct pre as [|z pre'].
+      * cbn in Htr. injection Htr as <- Hrest.
+        destruct y as [[[sy ty] oy] ry]. cbv beta iota zeta.
+        intros Hfrom Hn Hp. destruct Hf as [-> F].
+        assert (Hin : In (sy, ty, oy, ry) (xtrace (fst (xstep s i)) r)).
+        { rewrite Hrest. apply in_or_app. right. left. reflexivity. }
+        pose proof (xtrace_states_ge r _ _ (t_from th) Hin) as Hge. cbn in Hge.
+        pose proof (sf_sqn _ _ _ _ _ F (t_from th)) as Hs. rewrite Hp, Z.eqb_refl in Hs. cbn in Hs.
+        destruct (sf_adm _ _ _ _ _ F Hp) as [_ Had].
+        destruct (passed (r_out ry)) eqn:Epy; [|reflexivity]. exfalso.
+        pose proof (xtrace_admitted r _ _ Hin) as Hady. cbn in Hady. specialize (Hady Epy).
+        pose proof (ad_nonce _ _ Had). pose proof (ad_nonce _ _ Hady).
+        rewrite <- Hfrom in *. lia.
+      * cbn in Htr. injection Htr as _ Hrest. eapply IH. exact Hrest.
+    + eapply IH. exact Htr.
+Qed.
+
+(* C13 / C05 numbering over histories with aborted executions: an aborted execution owns an index and shows its gas limit
+   in the cumulative gas of the later receipts (passed / gas_shown treat it like any failure after admission) *)
+Lemma xnumbering l : forall s pre x post,
+  xtrace s l = pre ++ x :: post ->
+  let '(sx, _, _, _) := x in
+  let '(n, g, lg) := shown_before pre in
+  tx_count sx = tx_count (d_core s) + n /\ cum_gas sx = cum_gas (d_core s) + g /\ log_count sx = log_count (d_core s) + lg.
+Proof.
+  induction l as [|i r IH]; intros s pre x post Htr.
+  - destruct pre; discriminate.
+  - cbn [xtrace] in Htr. pose proof (xstep_facts s i) as Hf.
+    destruct (xhead s i) as [[[[sh th] oh] rh]|].
+    + destruct Hf as [-> F]. destruct pre as [|z pre'].
+      * cbn in Htr. injection Htr as <- _. cbn. lia.
+      * cbn in Htr. injection Htr as <- Hrest.
+        specialize (IH _ _ _ _ Hrest). destruct x as [[[sx tx] ox] rx].
+        cbn [shown_before]. destruct (shown_before pre') as [[n g] lg].
+        destruct IH as (I1 & I2 & I3).
+        rewrite I1, I2, I3, (sf_cnt _ _ _ _ _ F), (sf_gas _ _ _ _ _ F), (sf_log _ _ _ _ _ F). repeat split; lia.
+    + specialize (IH _ _ _ _ Htr). destruct x as [[[sx tx] ox] rx].
+      destruct (shown_before pre) as [[n g] lg].
+      destruct Hf as (_ & H1 & H2 & H3). destruct IH as (I1 & I2 & I3).
+      rewrite I1, I2, I3, H1, H2, H3. repeat split; lia.
+Qed.
+
+(* every element of a trace carries the facts of its own step *)
+Lemma xtrace_elem_facts l : forall s x, In x (xtrace s l) ->
+  let '(sx, tx, ox, rx) := x in exists s', step_facts sx tx ox s' rx.
+Proof.
+  induction l as [|i r IH]; intros s x Hin; [inversion Hin|].
+  cbn [xtrace] in Hin. pose proof (xstep_facts s i) as Hf.
+  destruct (xhead s i) as [[[[sh th] oh] rh]|].
+  - destruct Hin as [<-|Hin]; [|apply (IH _ x Hin)]. destruct Hf as [_ F]. eexists. exact F.
+  - apply (IH _ x Hin).
+Qed.
+
+Theorem x_block_numbering s l pre x post :
+  tx_count (d_core s) = 0 -> cum_gas (d_core s) = 0 -> log_count (d_core s) = 0 ->
+  xtrace s l = pre ++ x :: post ->
+  let '(_, _, o, r) := x in
+  let '(n, g, lg) := shown_before pre in
+  (passed (r_out r) = true -> r_tx_index r = n) /\
+  (forall v, r_out r = Executed v -> r_cum_gas r = g + gas_shown r /\ r_log_start r = lg).
+Proof.
+  intros Z1 Z2 Z3 Htr. pose proof (xnumbering l _ _ _ _ Htr) as Hn.
+  assert (Hin : In x (xtrace s l)) by (rewrite Htr; apply in_or_app; right; left; reflexivity).
+  pose proof (xtrace_elem_facts l _ _ Hin) as Hr.
+  destruct x as [[[sx tx] ox] rx]. destruct (shown_before pre) as [[n g] lg].
+  destruct Hn as (H1 & H2 & H3). destruct Hr as [s' F].
+  split.
+  - intros Hp. rewrite (sf_idx _ _ _ _ _ F Hp). lia.
+  - intros v Ho. destruct (sf_exec _ _ _ _ _ F v Ho) as [Hc Hl]. split; lia.
+Qed.
